@@ -152,3 +152,42 @@ Proof.
   split; [|split; assumption]. intros g Hne. rewrite Hg. apply gval_set_other. intros E. apply Hne. symmetry. exact E.
 Qed.
 Print Assumptions C04_definition_binds_only_its_name.
+
+(* ---- calls as statements of a session ---- *)
+Require Import Calc.ExprVM Calc.ExprAssign Calc.ExprLen Calc.CompileWf Calc.StmtVM Calc.StmtMixed Calc.StmtModes.
+
+(* whatever the callee — a leaf built-in, read, a user function of any arity, the wrong number of arguments —
+   the meaning of the call statement leaves every global as it was; and so does the compiled run at any point
+   of a session *)
+Theorem C04_any_call_changes_no_global : forall B n W nm args W' res,
+  ssem B n W (NCall (NName nm) args) = Some (W', res) -> w_glob W' = w_glob W.
+Proof.
+  intros B n W nm args W' res H. destruct n as [|n]; [discriminate H|].
+  assert (U : forall l, ucall_sem B n W nm l = Some (W', res) -> w_glob W' = w_glob W).
+  { intros l Hu. destruct (ucall_sem_facts B n W nm l W' res Hu) as (body & _ & Hg & _). exact Hg. }
+  destruct args as [|a [|a2 l]]; cbn [ssem] in H.
+  - destruct (String.eqb nm "read").
+    + destruct (Nat.leb 1 n && fun_eqb (gval (w_glob W) nm) (ft_val B nm)); [|discriminate H].
+      injection H as <- _. unfold read_sem. destruct (w_in W); reflexivity.
+    + destruct (bop_of_name nm); [discriminate H|]. exact (U [] H).
+  - destruct (bop_of_name nm) as [b|]; [|exact (U [a] H)].
+    destruct (Nat.leb (height a) n && Nat.leb 2 n && fun_eqb (gval (w_glob W) nm) (ft_val B nm)); [|discriminate H].
+    destruct (den (w_glob W) a) as [x|err]; injection H as <- _; [|reflexivity]. destruct b; reflexivity.
+  - destruct (bop_of_name nm); [discriminate H|]. destruct (String.eqb nm "read"); [discriminate H|]. exact (U _ H).
+Qed.
+Print Assumptions C04_any_call_changes_no_global.
+
+Theorem C04_call_in_a_session_changes_no_global : forall B mc c m nm args n W' res,
+  tready B mc c m -> forallb pure args = true -> wfb (NCall (NName nm) args) = true ->
+  ssem B n (wof (mc_vm mc)) (NCall (NName nm) args) = Some (W', res) ->
+  let t := NCall (NName nm) args in
+  stuck_m (snd (run_tree false mc t)) \/
+  (tree_agrees (snd (run_tree false mc t)) res /\ v_globals (mc_vm (fst (run_tree false mc t))) = v_globals (mc_vm mc)).
+Proof.
+  intros B mc c m nm args n W' res Hr Hp Hwb HM. cbv zeta.
+  pose proof (stmt_step_m false B (NCall (NName nm) args) mc c m n W' res Hr Hp Hwb HM) as S. unfold outcome_m in S.
+  destruct S as [S|[S|[Ha [Hg _]]]]; [left; left; exact S|left; right; exact S|right].
+  split; [exact Ha|]. pose proof (C04_any_call_changes_no_global B n _ nm args W' res HM) as E.
+  rewrite <- Hg in E. exact E.
+Qed.
+Print Assumptions C04_call_in_a_session_changes_no_global.
